@@ -12,16 +12,25 @@ RULE = ("configurations = subsets of (kind, name) descriptor registrations over 
         "vs REFERENCE), random subsets; in each, a battery of parsed ASTs containing every kind and registered/unregistered names is described "
         "before any registration, after each batch, and after re-registration with new ids. distinct class = (descriptor key, registered | default)")
 KINDS = ["UNARY", "BINARY", "POSTFIX", "TERNARY", "FUNCTION", "REFERENCE", "LIST", "MAP", "CHAIN"]
-NAMES = {"UNARY": ["-", "!", "not", "AND", "++"], "BINARY": ["+", "-", "*", "==", "in", "=", "&&"], "POSTFIX": ["++", "--", "!"], "FUNCTION": ["f", "g", "x", "min", "rateBB"], "REFERENCE": ["x", "y", "f", "min", "tierBB"]}
+NAMES = {"UNARY": ["-", "!", "not", "AND", "++"], "BINARY": ["+", "-", "*", "==", "in", "=", "&&"], "POSTFIX": ["++", "--", "!"], "FUNCTION": ["f", "g", "x", "min", "rateBB", "ärea"], "REFERENCE": ["x", "y", "f", "min", "tierBB", "é", "ünit.price"]}
 BATTERY = [
     "- x + y * 2", "! a && not b", "x ++ - y --", "c ? x : y", "f(x, 1) + g() + min(2, 3)", "[x, y, [1]]", "{x: 1, 2: y}", "x = 1; y = x + 1; f(y)", "AND [a, b] || x in [1, 2]",
     "- (x - y) - - z", "x == y ? f(x) : [g(x)]", "x", "f()", "[]", "{}", "1 + 2", "true", "x not in y", "(c ? 1 : 2) ? x : - y", "f(g(x), {1: [y]})", "a; b", "x = y = 3",
     "! x !", "++ x ++", "x ! + ! y", "not ++ x",
     # names that collide under common string hashes must still get their own descriptors
     "tierAa + tierBB * rateAa(1) - rateBB(2)", "x; hidden; y", "f(); g(x); 3", "a; b; c; d",
+    # operands whose own text looks like a template placeholder, a format directive or a marker
+    "'{rhs}' == label", "'{lhs}' + '{op}' + '{rhs}'", "c ? '{rhs}' : '{lhs}'", "['%s', '{}', '{0}', '$1']", "f('{rhs}', '\\1') ; '{op}'", "{'{rhs}': '{lhs}'}", "- '{rhs}' ++", "'<B1|+|x|y>' + x", "x in ['|', '#', '~']",
+    # names outside ASCII
+    "é + ünit.price * ärea(1)", "ärea(é) ; ünit.price", "[é, {é: ünit.price}]", "日本 == é ? ärea() : 日本", "- é ++",
     # deep trees: descriptors apply at every depth
     "x" + " + 1" * 140, "[" * 130 + "x" + "]" * 130, "- " * 135 + "x", "f(" * 132 + "x" + ")" * 132, "x" + " ++" * 1 + " + y" * 129,
 ]
+
+
+def norm(d):
+    """which quote character surrounds a string literal is expr()'s choice (C12), not part of this property"""
+    return d.replace("'", '"') if isinstance(d, str) else d
 
 
 def parse_battery(table):
@@ -30,8 +39,6 @@ def parse_battery(table):
         try:
             t = ref.rparse(ref.rtok(s, table), table)
         except (ref.Abstain, ref.LexError, ref.ParseError):
-            continue
-        if any(x[0] == "str" for x in gen.subtrees(t)):
             continue
         out.append((s, t))
     return out
@@ -171,7 +178,7 @@ def run_shard(desc):
             exp = ref.describe(t, reg)
             if "desc_panic" in r:
                 part["violations"].append({"sig": ["describe-panic"], "what": "describe() of `%s` panicked: %s" % (s, r["desc_panic"]), "replay": {"steps": steps[: i + 1]}})
-            elif r.get("desc") == exp:
+            elif norm(r.get("desc")) == norm(exp):
                 for x in gen.subtrees(t):
                     key = {"un": ("UNARY", x[1]), "bin": ("BINARY", x[1]), "post": ("POSTFIX", x[2] if x[0] == "post" else None), "tern": ("TERNARY",), "fn": ("FUNCTION", x[1]), "ref": ("REFERENCE", x[1]),
                            "list": ("LIST",), "map": ("MAP",), "stmt": ("CHAIN",)}.get(x[0])
@@ -210,7 +217,7 @@ def replay(path):
     run = common.run_vexec(d["replay"]["steps"], common.workdir(PROP, "replay"), "replay", "verifdbg")
     last = run.steps()[-1]
     print(json.dumps(last, ensure_ascii=False))
-    if last.get("desc") != d["replay"].get("expected"):
+    if norm(last.get("desc")) != norm(d["replay"].get("expected")):
         print("VIOLATION property=%s replay=%s" % (PROP, path))
         return 1
     return 0
